@@ -778,7 +778,9 @@ def rules(tier):
             # C01-ea: is_parent_around builds the candidate parent on the child's own list - the restored node keeps its probability but not its tree
             ('C01.R19', _shared_rule('c02', 'r4_copy_before_mutate')),
             # C01-fb: one child_item dict for every child of the restore walk
-            ('C01.R20', r20_records_are_fresh)]
+            ('C01.R20', r20_records_are_fresh),
+            # C01-ga: terminal probabilities clamped to epsilon on load
+            ('C01.R21', _shared_rule('plumbing', 'loader_prob_verbatim'))]
 
 
 META = {
